@@ -35,7 +35,17 @@ void remove_duplicate_include()
       }
       else if (pc->Is(CT_PP_INCLUDE))
       {
-         Chunk *next = pc->GetNext();
+         Chunk *next  = pc->GetNext();
+         Chunk *after = next->GetNext();
+
+         if (  after->IsNotNullChunk()
+            && !after->IsNewline()
+            && !after->IsComment())
+         {
+            // '#include HDR(a)': more than one token names the file, such a line is left alone
+            pc = next->GetNextNl();
+            continue;
+         }
 
          //LOG_FMT(LRMRETURN, "%s(%d): orig line is %zu, orig col is %zu, Text() is '%s', type is %s, parent type is %s\n",
          //        __func__, __LINE__, next->GetOrigLine(), next->GetOrigCol(), next->Text(),
